@@ -309,6 +309,24 @@ def firstWord (t : Text) : Option Text :=
   let w := (t.dropWhile isWs).takeWhile (fun c => !isWs c)
   if w.isEmpty then none else some w
 
+/-- `ends_inside_string`: does the text end inside a double-quoted string literal? (`st` = inside) -/
+def insideGo : Bool → Text → Bool
+  | st, [] => st
+  | true, '\\' :: _ :: r => insideGo true r
+  | true, ['\\'] => true
+  | st, '"' :: r => insideGo (!st) r
+  | st, _ :: r => insideGo st r
+
+def endsInsideString (t : Text) : Bool := insideGo false t
+
+/-- replace the first occurrence of `pat` that does not lie inside a string literal
+(`match_indices(pat).find(|i| !ends_inside_string(&line[..i]))` + `replace_range`); `pre` = text before -/
+def replaceOutside (pat to : Text) (pre : Text) : Text → Option Text
+  | [] => none
+  | c :: cs =>
+    if pat.isPrefixOf (c :: cs) && !endsInsideString pre then some (pre ++ to ++ (c :: cs).drop pat.length)
+    else replaceOutside pat to (pre ++ [c]) cs
+
 /-- one line of `append_pipeline_client_ids` -/
 def appendLine (cname baseId : Text) (line : Text) : Text :=
   let t := trim line
@@ -316,9 +334,8 @@ def appendLine (cname baseId : Text) (line : Text) : Text :=
     match firstWord (t.drop 7) with
     | some pname =>
       let pats := [".from(".toList ++ cname ++ [','], ".to(".toList ++ cname ++ [',']]
-      match pats.find? fun p => containsSub p line with
-      | some p => replaceFirst p (p.dropLast ++ ", client_id: \"".toList ++ escape baseId ++ ['-'] ++ pname ++ "\",".toList) line
-      | none => line
+      let ins (p : Text) : Text := p.dropLast ++ ", client_id: \"".toList ++ escape baseId ++ ['-'] ++ pname ++ "\",".toList
+      ((pats.filterMap fun p => replaceOutside p (ins p) [] line).head?).getD line
     | none => line
   else line
 
